@@ -40,6 +40,7 @@ def required(tier):
         "trees_checked": 1000,
         "grammar.lex_corpus": 4,
         "long_inputs.ge12": 100,
+        "tables_walked": 200,
     }
 
 
@@ -105,6 +106,18 @@ def one_grammar(ctx, mon, name, g, alphabet, maxlen):
             ctx.seen("construction_errors", "%s: %s" % (type(e).__name__, str(e)[:80]))
             continue
         pkeys = pgx.prod_keys(pg)
+        # the GLR parser can only accept what its table lets it do: for these (reduced) grammars
+        # every action of the canonical LR(1) automaton is needed by some sentence
+        if not glrwork.has_overlap(g):
+            try:
+                with pgx.watchdog(20):
+                    lack = glrwork.missing_valid_action(g, pg, parser.table)
+                ctx.count("tables_walked")
+                if lack:
+                    ctx.case((text, tables, "table"), True)
+                    ctx.violation("table-lacks-an-action-some-sentence-needs", dict(case0, input=None), lack)
+            except pgx.CaseTimeout:
+                ctx.count("table_walk_timeout")
         for w in glrwork.inputs_for(g, alphabet, maxlen, ctx.rng, extra_long=2):
             inp = glrwork.relayout(w, ctx.rng, density=0.35 if glrwork.has_overlap(g) else 1.0) if ctx.rng.random() < 0.5 else w
             check_input(ctx, mon, g, pg, parser, pkeys, dict(case0, input=inp), inp)
@@ -262,6 +275,11 @@ def replay(case, ctx):
     try:
         pg = pgx.grammar(case["grammar"])
         parser = pgx.glr(pg, tables=pgx.LALR if case["tables"] == "LALR" else pgx.SLR)
+        if case["input"] is None:
+            lack = glrwork.missing_valid_action(g, pg, parser.table)
+            if lack:
+                ctx.violation("table-lacks-an-action-some-sentence-needs", case, lack)
+            return
         long = len(case["input"]) >= 8
         if long:
             mon.reduce_budget = 3000000
